@@ -1284,6 +1284,8 @@ def mandatory_prefix_rule(ctx, R, X):
 
 
 MUTANTS = [
+    ('asm-imm-branch-no-operand-guard', 'miasmx/arch/ia32_arch.py', '                elif dib in [imm, ims]:\n                    if len(args_sample)<=0:\n                        good_c = False\n                        break\n', '                elif dib in [imm, ims]:\n', 'C10.D13'),
+
     ('p-error-local-renamed', 'miasmx/core/parse_ad.py', "f_back.f_back.f_back.f_back.f_locals['l']", "f_back.f_back.f_back.f_back.f_locals['line']", 'C10.D10'),
     ('mmx-mem-size-unrenderable', 'miasmx/arch/ia32_arch.py', "    '#p#movsxdq': x86_afs.f64, '#p#movzxdq': x86_afs.f64,", "    '#p#movsxdq': x86_afs.u64, '#p#movzxdq': x86_afs.u64,", 'C10.D2'),
     ('x87-size-keyerror', 'miasmx/arch/ia32_arch.py', "x86_afs.f32:x86_afs.f32, x86_afs.f64:x86_afs.f64}.get(size)", "x86_afs.f32:x86_afs.f32, x86_afs.f64:x86_afs.f64}[size]", 'C10.D3'),
